@@ -7,67 +7,28 @@ Local Open Scope Z_scope.
 
 (** * 1. "an enacted parameter change alters only the fields listed as changeable" *)
 
-(* Full statement, single-record parameters: for every schema, stored record,
-   rule and proposed document, if allowsParamChange says yes and Subspace.Update
-   stores st', then st' encodes a record that agrees with the current one on
-   every field outside the allow-list.  [guarded = true] adds the hypothesis that
-   every protected field is present in the current amino-JSON document. *)
-Definition single_sound (guarded : bool) : Prop :=
+(* Single-record parameters, full statement: for every schema, stored record,
+   rule with sub-parameter restrictions and proposed document (ordered, possibly
+   with duplicate keys), if allowsParamChange says yes and Subspace.Update stores
+   st', then st' encodes a record that agrees with the current one on every field
+   outside the allow-list. *)
+Theorem C17_permission_sound_single :
   forall sch vf r ac inc st',
     schema_ok sch = true -> wt_rec sch r = true -> has_rules ac ->
-    (guarded = true -> forall f, In f sch -> str_in (f_name f) (ac_single ac) = false ->
-       has_key (f_name f) (enc_rec sch r) = true) ->
     allows_change ac (RVal (enc_struct sch r)) (Some inc) = Some true ->
     apply_single sch vf (enc_struct sch r) inc = AOk st' ->
     exists r', st' = enc_struct sch r' /\ vf r' = true /\
       forall f, In f sch -> str_in (f_name f) (ac_single ac) = false ->
         bget (f_name f) r' (zero_k (f_kind f)) = bget (f_name f) r (zero_k (f_kind f)).
-
-Theorem C17_permission_sound_single_partial : single_sound true.
-Proof.
-  intros sch vf r ac inc st' Hok Hwt Hr Hg Ha Hp.
-  eapply single_sound_partial; eauto.
-Qed.
-Print Assumptions C17_permission_sound_single_partial.
-
-(* the cdp debt parameter with an empty reference_asset; the rule allows only debt_floor *)
-Definition w_debt : jmap :=
-  [("denom", JStr (SText "usdx")); ("reference_asset", JStr (SText ""));
-   ("conversion_factor", JStr (SInt 6)); ("debt_floor", JStr (SInt 10000000))].
-Definition w_debt_ac : allowed_change := mkAC (PKnown 2) ["debt_floor"] [].
-Definition w_debt_inc : json :=
-  JObj [("denom", JStr (SText "usdx")); ("conversion_factor", JStr (SInt 6));
-        ("reference_asset", JStr (SText "usd"))].
-
-Theorem C17_permission_sound_single_refuted : ~ single_sound false.
-Proof.
-  intros H.
-  destruct (H debt_schema (valid_single 2) w_debt w_debt_ac w_debt_inc
-              (JObj [("denom", JStr (SText "usdx")); ("reference_asset", JStr (SText "usd"));
-                     ("conversion_factor", JStr (SInt 6)); ("debt_floor", JStr (SInt 0))]))
-    as (r' & Hst & _ & Hf); try (vm_compute; reflexivity); try discriminate.
-  pose (f := mkField "reference_asset" (KS KStr) true).
-  assert (Hin : In f debt_schema) by (cbn; auto).
-  specialize (Hf f Hin eq_refl). unfold f in Hf. cbn [f_name f_kind f_omit zero_k zero_s] in Hf.
-  assert (Hnd : NoDup (map f_name debt_schema)) by (apply names_nodup_NoDup; reflexivity).
-  pose proof (oget_enc_rec debt_schema r' f Hnd Hin) as He.
-  assert (Hl : enc_rec debt_schema r' =
-                [("denom", JStr (SText "usdx")); ("reference_asset", JStr (SText "usd"));
-                 ("conversion_factor", JStr (SInt 6)); ("debt_floor", JStr (SInt 0))])
-    by (unfold enc_struct in Hst; congruence).
-  rewrite Hl in He. unfold f in He. cbn [f_name f_kind f_omit zero_k zero_s] in He. rewrite Hf in He.
-  vm_compute in He. discriminate.
-Qed.
-Print Assumptions C17_permission_sound_single_refuted.
+Proof. exact single_sound_full. Qed.
+Print Assumptions C17_permission_sound_single.
 
 (* Multi-record parameters: the stored array has the same number of records, and
-   every current record has a counterpart with the same requirement key value
+   every current record has a counterpart carrying the same requirement key value
    whose fields outside that requirement's allow-list are intact. *)
-Definition multi_sound (guarded : bool) : Prop :=
+Theorem C17_permission_sound_multi_partial :
   forall sch vf rs ac inc st',
     schema_ok sch = true -> Forall (fun r => wt_rec sch r = true) rs -> rs <> [] -> has_rules ac ->
-    (guarded = true -> forall r q f, In r rs -> req_of sch (ac_multi ac) r = Some q -> In f sch ->
-       str_in (f_name f) (sr_attrs q) = false -> has_key (f_name f) (enc_rec sch r) = true) ->
     allows_change ac (RVal (enc_slice sch rs)) (Some inc) = Some true ->
     apply_multi sch vf (enc_slice sch rs) inc = AOk st' ->
     exists rs', st' = enc_slice sch rs' /\ vf rs' = true /\ List.length rs' = List.length rs /\
@@ -76,75 +37,57 @@ Definition multi_sound (guarded : bool) : Prop :=
           val_is (dedupe (enc_rec sch r)) (sr_key q) (sr_val q) = true /\
           forall f, In f sch -> str_in (f_name f) (sr_attrs q) = false ->
             bget (f_name f) r' (zero_k (f_kind f)) = bget (f_name f) r (zero_k (f_kind f)).
-
-Theorem C17_permission_sound_multi_partial : multi_sound true.
-Proof.
-  intros sch vf rs ac inc st' Hok Hwt Hne Hr Hg Ha Hp.
-  eapply multi_sound_partial; eauto.
-Qed.
+Proof. exact multi_sound_counterpart. Qed.
 Print Assumptions C17_permission_sound_multi_partial.
 
-(* bep3 asset "inc", paused (active = false is omitted from the stored JSON);
-   the rule allows only coin_id for that asset *)
-Definition w_limit : json :=
-  JObj [("limit", JStr (SInt 350000000000000)); ("time_limited", JBool false);
-        ("time_period", JStr (SInt 3600000000000)); ("time_based_limit", JStr (SInt 0))].
-Definition w_asset : jmap :=
-  [("denom", JStr (SText "inc")); ("coin_id", JStr (SInt 9999)); ("supply_limit", w_limit);
-   ("active", JBool false); ("deputy_address", JStr (SAddr 6)); ("fixed_fee", JStr (SInt 1000));
-   ("min_swap_amount", JStr (SInt 1)); ("max_swap_amount", JStr (SInt 1000000000000));
-   ("min_block_lock", JStr (SInt 220)); ("max_block_lock", JStr (SInt 270))].
-Definition w_asset_ac : allowed_change := mkAC (PKnown 0) [] [mkReq "denom" (SText "inc") ["coin_id"]].
-Definition w_limit_enc : json :=
-  JObj [("limit", JStr (SInt 350000000000000)); ("time_period", JStr (SInt 3600000000000));
-        ("time_based_limit", JStr (SInt 0))].
-(* the stored record without "coin_id", plus "active": true *)
-Definition w_asset_inc : json :=
-  JArr [JObj [("denom", JStr (SText "inc")); ("supply_limit", w_limit_enc); ("active", JBool true);
-              ("deputy_address", JStr (SAddr 6)); ("fixed_fee", JStr (SInt 1000));
-              ("min_swap_amount", JStr (SInt 1)); ("max_swap_amount", JStr (SInt 1000000000000));
-              ("min_block_lock", JStr (SInt 220)); ("max_block_lock", JStr (SInt 270))]].
-Definition w_asset_after : json :=
-  JArr [JObj [("denom", JStr (SText "inc")); ("supply_limit", w_limit_enc); ("active", JBool true);
-              ("deputy_address", JStr (SAddr 6)); ("fixed_fee", JStr (SInt 1000));
-              ("min_swap_amount", JStr (SInt 1)); ("max_swap_amount", JStr (SInt 1000000000000));
-              ("min_block_lock", JStr (SInt 220)); ("max_block_lock", JStr (SInt 270))]].
+(* The full multi-record statement also says that no record is replaced: every
+   STORED record is the image of a current record (same requirement key value,
+   protected fields as stored before).  It is false when two current records
+   carry the same requirement key value and differ only in allowed fields: both
+   are checked against the first incoming record with that key value, and the
+   second one is never looked at. *)
+Definition multi_sound_strong : Prop :=
+  forall sch vf rs ac inc st',
+    schema_ok sch = true -> Forall (fun r => wt_rec sch r = true) rs -> rs <> [] -> has_rules ac ->
+    allows_change ac (RVal (enc_slice sch rs)) (Some inc) = Some true ->
+    apply_multi sch vf (enc_slice sch rs) inc = AOk st' ->
+    all_accounted sch (ac_multi ac) rs st' = true.
 
-Theorem C17_permission_sound_multi_refuted : ~ multi_sound false.
+(* cdp collateral types bnb-a and bnb-b (same denom); the rule is keyed by denom
+   and lets the committee change "type" only *)
+Definition w_coll (typ : string) (limit : Z) : jmap :=
+  [("denom", JStr (SText "bnb")); ("type", JStr (SText typ));
+   ("liquidation_ratio", JStr (SDec 1500000000000000000));
+   ("debt_limit", JObj [("denom", JStr (SText "usdx")); ("amount", JStr (SInt limit))]);
+   ("stability_fee", JStr (SDec 1000000000000000000)); ("auction_size", JStr (SInt 7000000000));
+   ("liquidation_penalty", JStr (SDec 50000000000000000)); ("spot_market_id", JStr (SText "bnb:usd"));
+   ("liquidation_market_id", JStr (SText "bnb:usd:30"));
+   ("keeper_reward_percentage", JStr (SDec 10000000000000000));
+   ("check_collateralization_index_count", JStr (SInt 10)); ("conversion_factor", JStr (SInt 8))].
+Definition w_coll_ac : allowed_change := mkAC (PKnown 1) [] [mkReq "denom" (SText "bnb") ["type"]].
+Definition w_coll_cur : list jmap := [w_coll "bnb-a" 500000000000; w_coll "bnb-b" 500000000000].
+(* the second record's debt limit is multiplied by 1000 *)
+Definition w_coll_inc : json :=
+  JArr [enc_struct collateral_schema (w_coll "bnb-a" 500000000000);
+        enc_struct collateral_schema (w_coll "bnb-b" 500000000000000)].
+
+Theorem C17_permission_sound_multi_refuted : ~ multi_sound_strong.
 Proof.
   intros H.
-  destruct (H asset_schema (valid_multi 0) [w_asset] w_asset_ac w_asset_inc w_asset_after)
-    as (rs' & Hst & _ & Hlen & Hf); try (vm_compute; reflexivity); try discriminate.
-  { repeat constructor. }
-  destruct (Hf w_asset (or_introl eq_refl)) as (q & r' & Hq & Hin' & _ & Hprot).
-  vm_compute in Hq. injection Hq as <-.
-  destruct rs' as [|x [|y t]]; cbn in Hlen; try discriminate.
-  destruct Hin' as [->|[]].
-  pose (f := mkField "active" (KS KBool) true).
-  assert (Hin : In f asset_schema) by (cbn; auto 10).
-  specialize (Hprot f Hin eq_refl). unfold f in Hprot. cbn [f_name f_kind f_omit zero_k zero_s] in Hprot.
-  assert (Hnd : NoDup (map f_name asset_schema)) by (apply names_nodup_NoDup; reflexivity).
-  pose proof (oget_enc_rec asset_schema r' f Hnd Hin) as He.
-  assert (Hl : JArr [JObj (enc_rec asset_schema r')] = w_asset_after) by (rewrite Hst; reflexivity).
-  unfold w_asset_after in Hl.
-  assert (Hl2 : forall a b, JArr [JObj a] = JArr [JObj b] -> a = b) by (intros a b E; congruence).
-  apply Hl2 in Hl. rewrite Hl in He. unfold f in He. cbn [f_name f_kind f_omit zero_k zero_s] in He. rewrite Hprot in He.
-  vm_compute in He. discriminate.
+  assert (P1 : schema_ok collateral_schema = true) by (vm_compute; reflexivity).
+  assert (P2 : Forall (fun r => wt_rec collateral_schema r = true) w_coll_cur).
+  { constructor; [vm_compute; reflexivity|]. constructor; [vm_compute; reflexivity|constructor]. }
+  assert (P3 : w_coll_cur <> []) by (unfold w_coll_cur; intros E0; inversion E0).
+  assert (P4 : has_rules w_coll_ac) by reflexivity.
+  assert (P5 : allows_change w_coll_ac (RVal (enc_slice collateral_schema w_coll_cur)) (Some w_coll_inc) = Some true)
+    by (vm_compute; reflexivity).
+  assert (P6 : apply_multi collateral_schema (valid_multi 1) (enc_slice collateral_schema w_coll_cur) w_coll_inc
+               = AOk w_coll_inc) by (vm_compute; reflexivity).
+  assert (E : all_accounted collateral_schema (ac_multi w_coll_ac) w_coll_cur w_coll_inc = false)
+    by (vm_compute; reflexivity).
+  pose proof (H _ _ _ _ _ _ P1 P2 P3 P4 P5 P6) as Ht. rewrite E in Ht. discriminate.
 Qed.
 Print Assumptions C17_permission_sound_multi_refuted.
-
-(* the guard of the partial theorems is satisfiable, and it holds whenever no
-   protected field is tagged omitempty *)
-Theorem C17_guard_when_no_omitempty :
-  forall sch r allow, schema_ok sch = true ->
-    (forall f, In f sch -> str_in (f_name f) allow = false -> f_omit f = false) ->
-    forall f, In f sch -> str_in (f_name f) allow = false -> has_key (f_name f) (enc_rec sch r) = true.
-Proof.
-  intros sch r allow Hok Hno f Hin Hp. destruct (schema_ok_parts _ Hok) as [Hnd _].
-  pose proof (oget_enc_rec sch r f Hnd Hin) as He. cbn in He. rewrite (Hno f Hin Hp) in He. cbn in He.
-  eapply oget_some_has; eauto.
-Qed.
-Print Assumptions C17_guard_when_no_omitempty.
 
 (** * 2. life cycle *)
 
@@ -247,6 +190,11 @@ Print Assumptions C17_committee_change_unroutable.
 
 (** * Non-vacuity *)
 
+Definition w_debt : jmap :=
+  [("denom", JStr (SText "usdx")); ("reference_asset", JStr (SText ""));
+   ("conversion_factor", JStr (SInt 6)); ("debt_floor", JStr (SInt 10000000))].
+Definition w_debt_ac : allowed_change := mkAC (PKnown 2) ["debt_floor"] [].
+
 (* the guarded theorem's hypotheses are satisfiable: an allowed change of debt_floor *)
 Example C17_single_nonvacuous :
   let r := [("denom", JStr (SText "usdx")); ("reference_asset", JStr (SText "usd"));
@@ -254,7 +202,6 @@ Example C17_single_nonvacuous :
   let inc := JObj [("debt_floor", JStr (SInt 1)); ("denom", JStr (SText "usdx"));
                    ("conversion_factor", JStr (SInt 6)); ("reference_asset", JStr (SText "usd"))] in
   schema_ok debt_schema = true /\ wt_rec debt_schema r = true /\
-  forallb (fun f => str_in (f_name f) ["debt_floor"] || has_key (f_name f) (enc_rec debt_schema r)) debt_schema = true /\
   allows_change w_debt_ac (RVal (enc_struct debt_schema r)) (Some inc) = Some true /\
   exists st', apply_single debt_schema (valid_single 2) (enc_struct debt_schema r) inc = AOk st'.
 Proof. cbv zeta. repeat split; try (vm_compute; reflexivity). eexists. vm_compute. reflexivity. Qed.
@@ -276,3 +223,11 @@ Proof.
   - intros c [<-|[]]. vm_compute. reflexivity.
   - repeat constructor.
 Qed.
+
+(* the document that used to slip through (drop the allowed debt_floor, add the
+   absent omitempty reference_asset: the lengths agree) is refused by the fixed check *)
+Example C17_added_attribute_refused :
+  allows_change w_debt_ac (RVal (enc_struct debt_schema w_debt))
+    (Some (JObj [("denom", JStr (SText "usdx")); ("conversion_factor", JStr (SInt 6));
+                 ("reference_asset", JStr (SText "usd"))])) = Some false.
+Proof. vm_compute. reflexivity. Qed.
